@@ -259,8 +259,10 @@ void BatchLogRecordProcessor::Export()
     }
     else
     {
+      // Read the size only once: producers keep adding between two reads.
+      const size_t queue_size = buffer_.size();
       num_records_to_export =
-          buffer_.size() >= max_export_batch_size_ ? max_export_batch_size_ : buffer_.size();
+          queue_size >= max_export_batch_size_ ? max_export_batch_size_ : queue_size;
     }
 
     if (num_records_to_export == 0)
